@@ -13,7 +13,7 @@ ID = 'C03'
 TITLE = 'priorities: highest priority wins, latest among equals'
 RULE = ('a random skeleton of mapping paths (depth <=4); 2-5 stages each writing a random subset of its leaves (unique marker scalars or '
         'lists of scalars as atomic values) with !force/!weak on leaves, on enclosing mappings or on the root (at most one priority tag per '
-        'root-to-leaf path) and user metadata on every writer; in a third of the cases a mapping of one stage is used again through a yaml alias under '
+        'root-to-leaf path) and user metadata on every writer; in a third of the cases a mapping or a (tagged) scalar of one stage is used again through a yaml alias under '
         'a further key, directly or below a tagged wrapper; non-trivial = a leaf path with >=3 writers of >=2 distinct priorities, or a '
         'container tag >=2 levels above a leaf it decides; distinct = hash of the case')
 BUDGET = {'quick': (4, 600), 'thorough': (16, 10000)}
@@ -96,7 +96,8 @@ def _case(draw):
         # yaml alias: a mapping of one stage is used again under a further top-level key of that stage, directly or inside a tagged
         # wrapper - the copy takes its priority from where it stands (and from the tags it carries itself), the original keeps its own
         i = draw(st.integers(0, n - 1))
-        cands = [nn for p, nn in tdoc.walk(docs[i]) if p and nn['t'] == 'map' and nn['items']]
+        # (... or a scalar, tagged or not: a tagged scalar is data with a tag, each place has its own)
+        cands = [nn for p, nn in tdoc.walk(docs[i]) if p and ((nn['t'] == 'map' and nn['items']) or nn['t'] == 'sc')]
         if cands:
             tgt = cands[draw(st.integers(0, len(cands) - 1))]
             tgt['anchor'] = 'n0'
@@ -155,7 +156,7 @@ def run_case(case):
     if case.get('pool'):
         labels.add('restated-values')
     if any(nn['t'] == 'alias' for d in docs for _, nn in tdoc.walk(d)):
-        labels.add('yaml-alias-of-a-mapping')
+        labels.add('yaml-alias-of-a-mapping' if any(nn.get('anchor') and nn['t'] == 'map' for d in docs for _, nn in tdoc.walk(d)) else 'yaml-alias-of-a-scalar')
         if any(k == 'zal' and v['t'] == 'map' for d in docs for k, v in d['items']):
             labels.add('alias-below-a-tagged-wrapper')
             nontrivial = True
